@@ -60,7 +60,7 @@ def render_functions(fs):
     return " ".join("%s %s(%s);" % (r, n, args_text(a)) for r, n, a in fs)
 
 
-PRELUDE = "namespace ns { class Other { Other(); }; }\nnamespace ext { virtual class Root { Root(); }; }\n"
+PRELUDE = "namespace ns { class Other { Other(); }; template<C> class Cam { Cam(); }; }\nnamespace ext { virtual class Root { Root(); }; }\n"
 
 
 def expand(args):
@@ -162,7 +162,12 @@ def routine_classes(body):
     out = []
     for m in re.finditer(r"unwrap(_shared_ptr|_enum)?<\s*([^>]*(?:<[^>]*>)?[^>]*?)\s*>\(in\[(\d+)\]", body):
         kind, ty, idx = m.group(1), m.group(2).strip(), int(m.group(3))
-        if kind:
+        tm = re.match(r"([\w:]+)<(.*)>$", ty)
+        if kind and tm:
+            # MATLAB class of a template instantiation: outer name + the last name component of each argument
+            inner = [a.strip().split("::")[-1] for a in tm.group(2).split(",")]
+            out.append((idx, None if any(a in MAT_CLASS for a in inner) else tm.group(1).replace("::", ".") + "".join(inner)))
+        elif kind:
             out.append((idx, ty.replace("::", ".")))
         else:
             out.append((idx, MAT_CLASS.get(ty)))
